@@ -19,6 +19,8 @@
 (*   va     valid_after (None until invalidate_all)                          *)
 (*   hk     clock reading of the last housekeeping attempt (sync_after-500ms)*)
 (*   crash  what went wrong inside the library, "" if nothing                *)
+(*   infl   records held by client threads between their map access and      *)
+(*          their send (always empty between the calls of one client)        *)
 (*                                                                           *)
 (* This module gives the sequential-client semantics (every call runs to     *)
 (* completion) as functions of the state; SyncConc.tla interleaves the same  *)
@@ -45,7 +47,7 @@ SInit(cfg) ==
     [cfg |-> cfg, map |-> [k \in Keys |-> NoEntry], info |-> [i \in InfoIds |-> NoInfo],
      ao |-> <<>>, wo |-> <<>>, rch |-> <<>>, wch |-> <<>>, ec |-> 0, ws |-> 0, va |-> None,
      cnt |-> [k \in Keys |-> 0], fsize |-> 0, son |-> FALSE, aged |-> FALSE,
-     hk |-> 0, now |-> 0, crash |-> "", mx |-> <<>>]
+     hk |-> 0, now |-> 0, crash |-> "", mx |-> <<>>, infl |-> {}]
 
 HasExpiry(s) == s.cfg.ttl # None \/ s.cfg.tti # None
 HasTtl(s) == s.cfg.ttl # None
@@ -55,6 +57,7 @@ Referenced(s) ==
     {s.map[k].i : k \in {k2 \in Keys : s.map[k2].p}} \cup Range(s.ao) \cup Range(s.wo)
     \cup {s.rch[j].i : j \in {j2 \in DOMAIN s.rch : s.rch[j2].hit}}
     \cup {s.wch[j].i : j \in DOMAIN s.wch}
+    \cup {r.i : r \in {x \in s.infl : x.t \in {"U", "R"} \/ (x.t = "H" /\ x.hit)}}
 FreshInfo(s) == IF InfoIds \ Referenced(s) = {} THEN 0
                 ELSE CHOOSE i \in InfoIds \ Referenced(s) : \A j \in InfoIds \ Referenced(s) : i <= j
 
@@ -344,40 +347,50 @@ SendWrite(s, rec, fuel) ==
        ELSE IF fuel = 0 THEN Crash(s1, "insert never completes: write channel stays full")
        ELSE SendWrite(s1, rec, fuel - 1)
 
-Insert(s0, k, v, w0) ==
-    LET s == [s0 EXCEPT !.aged = FALSE, !.mx = <<>>]
-        w == Weigh(s, w0)
+\* the foreground part of insert: one atomic access to the map; <<state, write record>>
+InsMap(s, k, v, w0) ==
+    LET w == Weigh(s, w0)
     IN IF s.map[k].p
        THEN LET i == s.map[k].i
                 ow == s.info[i].w
                 n == s.info[i].ver + 1
-                s1 == [s EXCEPT !.map[k].v = v, !.map[k].n = n,
-                                !.info[i] = [@ EXCEPT !.dirty = TRUE, !.la = s.now, !.lm = s.now, !.ver = n,
-                                                      !.w = IF "F9" \in Dev THEN w ELSE @]]
-            IN SendWrite(s1, [t |-> "U", k |-> k, i |-> i, ow |-> ow, nw |-> w, n |-> n], 3)
+            IN <<[s EXCEPT !.map[k].v = v, !.map[k].n = n,
+                           !.info[i] = [@ EXCEPT !.dirty = TRUE, !.la = s.now, !.lm = s.now, !.ver = n,
+                                                 !.w = IF "F9" \in Dev THEN w ELSE @]],
+                 [t |-> "U", k |-> k, i |-> i, ow |-> ow, nw |-> w, n |-> n]>>
        ELSE LET i == FreshInfo(s)
-            IN IF i = 0 THEN Crash(s, "MODEL: out of info ids")
-               ELSE LET s1 == [s EXCEPT !.map[k] = [p |-> TRUE, v |-> v, i |-> i, n |-> 1],
-                                        !.info[i] = [k |-> k, adm |-> FALSE, dirty |-> TRUE,
-                                                     la |-> s.now, lm |-> s.now, w |-> w, ver |-> 1]]
-                    IN SendWrite(s1, [t |-> "U", k |-> k, i |-> i, ow |-> 0, nw |-> w, n |-> 1], 3)
+            IN IF i = 0 THEN <<Crash(s, "MODEL: out of info ids"), [t |-> "U", k |-> k, i |-> 1, ow |-> 0, nw |-> w, n |-> 1]>>
+               ELSE <<[s EXCEPT !.map[k] = [p |-> TRUE, v |-> v, i |-> i, n |-> 1],
+                               !.info[i] = [k |-> k, adm |-> FALSE, dirty |-> TRUE,
+                                            la |-> s.now, lm |-> s.now, w |-> w, ver |-> 1]],
+                    [t |-> "U", k |-> k, i |-> i, ow |-> 0, nw |-> w, n |-> 1]>>
+
+Insert(s0, k, v, w0) ==
+    LET s == [s0 EXCEPT !.aged = FALSE, !.mx = <<>>]
+        r == InsMap(s, k, v, w0)
+    IN IF r[1].crash # "" THEN r[1] ELSE SendWrite(r[1], r[2], 3)
+
+\* the foreground part of get: <<read record, result>>
+GetMap(s, k) ==
+    IF Visible(s, k) THEN <<[hit |-> TRUE, k |-> k, i |-> s.map[k].i, ts |-> s.now], s.map[k].v>>
+    ELSE <<[hit |-> FALSE, k |-> k, i |-> 0, ts |-> s.now], None>>
 
 \* get: <<state, result>>
 Get(s0, k) ==
     LET s == [s0 EXCEPT !.aged = FALSE, !.mx = <<>>]
-        hit == Visible(s, k)
-        rec == IF hit THEN [hit |-> TRUE, k |-> k, i |-> s.map[k].i, ts |-> s.now]
-               ELSE [hit |-> FALSE, k |-> k, i |-> 0, ts |-> s.now]
-        res == IF hit THEN s.map[k].v ELSE None
+        rec == GetMap(s, k)[1]
+        res == GetMap(s, k)[2]
         s1 == Housekeep(s, Len(s.rch))
     IN <<IF Len(s1.rch) < RLog THEN [s1 EXCEPT !.rch = Append(s1.rch, rec)] ELSE s1, res>>
 
 Contains(s, k) == <<[s EXCEPT !.aged = FALSE, !.mx = <<>>], Visible(s, k)>>
 
+InvRec(s, k) == [t |-> "R", k |-> k, i |-> s.map[k].i, ow |-> 0, nw |-> 0, n |-> 0]
+
 Invalidate(s0, k) ==
     LET s == [s0 EXCEPT !.aged = FALSE, !.mx = <<>>]
     IN IF ~s.map[k].p THEN s
-       ELSE SendWrite(MapRemove(s, k), [t |-> "R", k |-> k, i |-> s.map[k].i, ow |-> 0, nw |-> 0, n |-> 0], 3)
+       ELSE SendWrite(MapRemove(s, k), InvRec(s, k), 3)
 
 InvalidateAll(s) == [s EXCEPT !.va = s.now, !.aged = FALSE, !.mx = <<>>]
 
@@ -436,7 +449,8 @@ SDo(st, o) ==
 SEventOf(r) == r.ev @@ [snap |-> SSnap(r.s), mx |-> r.s.mx]
 
 \* Garbage (EntryInfos nobody references) and the per-call event log are not state.
-PendingU(s, i) == \E j \in DOMAIN s.wch : s.wch[j].t = "U" /\ s.wch[j].i = i
+PendingU(s, i) == \/ \E j \in DOMAIN s.wch : s.wch[j].t = "U" /\ s.wch[j].i = i
+                  \/ \E r \in s.infl : r.t = "U" /\ r.i = i
 Canon(s) == [s EXCEPT !.info = [i \in InfoIds |-> IF i \notin Referenced(s) THEN NoInfo
                                                   ELSE IF PendingU(s, i) THEN s.info[i]
                                                   ELSE [s.info[i] EXCEPT !.ver = 0]],
